@@ -363,7 +363,7 @@ int main(int argc, char** argv)
     auto const a = vf::parse_args(argc, argv);
     report r(a);
     g_calls = a.thorough() ? std::vector<sz>{7, 12, 5, 9, 6} : std::vector<sz>{7, 12, 5, 9};
-    ::mkdir("build/out/tmp", 0777);
+    ::mkdir("build", 0777); ::mkdir("build/out", 0777); ::mkdir("build/out/tmp", 0777);
     g_file = "build/out/tmp/c03_" + std::to_string(::getpid()) + ".chkpt";
 #ifdef VF_PART
     int const type = VF_PART % 3, group = VF_PART / 3;
